@@ -79,6 +79,24 @@ impl syn::parse::Parse for MatchesArgs {
 
 fn mac(m: &syn::Macro) -> Value {
     let name = toks(&m.path).replace(' ', "");
+    if name == "vec" {
+        // vec![elem; n]
+        struct Rep(Expr, Expr);
+        impl syn::parse::Parse for Rep {
+            fn parse(input: syn::parse::ParseStream) -> syn::Result<Self> {
+                let a: Expr = input.parse()?;
+                input.parse::<Token![;]>()?;
+                let b: Expr = input.parse()?;
+                Ok(Rep(a, b))
+            }
+        }
+        if let Ok(r) = m.parse_body::<Rep>() {
+            return json!({"k":"vec_repeat","line":line(m),"elem":expr(&r.0),"len":expr(&r.1)});
+        }
+    }
+    if name == "cfg" {
+        return json!({"k":"cfg_macro","line":line(m),"text":m.tokens.to_string()});
+    }
     if name == "matches" {
         if let Ok(ma) = m.parse_body::<MatchesArgs>() {
             return json!({"k":"matches","line":line(m),"scrut":expr(&ma.scrut),"pat":pat(&ma.pat),
@@ -107,7 +125,11 @@ fn lit(l: &syn::Lit) -> Value {
 fn expr(e: &Expr) -> Value {
     match e {
         Expr::Lit(l) => lit(&l.lit),
-        Expr::Path(p) => json!({"k":"path","path":toks(&p.path).replace(' ', "")}),
+        Expr::Path(p) => {
+            // `RangeSet::<[T; 1]>::from` -> `RangeSet::from` (generic arguments are irrelevant to the encoder)
+            let segs: Vec<String> = p.path.segments.iter().map(|s| s.ident.to_string()).collect();
+            json!({"k":"path","path":segs.join("::"),"full":toks(&p.path).replace(' ', "")})
+        }
         Expr::Call(c) => json!({"k":"call","line":line(c),"func":expr(&c.func),"args":c.args.iter().map(expr).collect::<Vec<_>>()}),
         Expr::MethodCall(m) => json!({"k":"mcall","line":line(&m.method),"recv":expr(&m.receiver),"method":m.method.to_string(),
             "turbofish": m.turbofish.as_ref().map(|t| toks(t)),
